@@ -269,3 +269,9 @@ impl core::hash::Hasher for TraceHasher {
         self.rec(11, i as usize as u128);
     }
 }
+
+/// Stub for alloc::fmt::format: only error *messages* are built with format! in the code under
+/// test; they do not influence any checked result.
+pub(crate) fn format_stub(_args: core::fmt::Arguments<'_>) -> String {
+    String::new()
+}
